@@ -63,8 +63,22 @@ fn nums(s: &str) -> Vec<usize> {
     }
 }
 
-/// `hexread <text hex> <frags> <bufsizes>`: read until Ok(0) or Err, cycling through bufsizes.
-/// answer: `<bytes hex> end=eof|err(<kind>) calls=<n>`
+/// `<kind>:<inner>` of an io::Error; inner = the hex::FromHexError it wraps (or `-`).
+fn show_err(e: &io::Error) -> String {
+    let inner = match e.get_ref().and_then(|r| r.downcast_ref::<hex::FromHexError>()) {
+        Some(hex::FromHexError::OddLength) => "OddLength".to_string(),
+        Some(hex::FromHexError::InvalidStringLength) => "InvalidStringLength".to_string(),
+        Some(hex::FromHexError::InvalidHexCharacter { c, index }) => {
+            format!("InvalidHexCharacter({},{})", *c as u32, index)
+        }
+        None => "-".to_string(),
+    };
+    format!("err({:?}:{})", e.kind(), inner)
+}
+
+/// `hexread <text hex> <frags> <bufsizes>`: read until Ok(0) or Err, cycling through bufsizes
+/// (64 when none are given).
+/// answer: `<bytes hex> end=eof|err(<kind>:<inner>) calls=<n>`
 fn hexread(args: &[&str]) -> String {
     let text = unhex(args[0]);
     let frags = nums(args[1]);
@@ -85,7 +99,7 @@ fn hexread(args: &[&str]) -> String {
             }
             Ok(n) => out.extend_from_slice(&b[..n]),
             Err(e) => {
-                end = format!("err({:?})", e.kind());
+                end = show_err(&e);
                 break;
             }
         }
@@ -98,7 +112,7 @@ fn hexread(args: &[&str]) -> String {
 }
 
 /// `hexwrite <bytes hex> <accept schedule> <mode>`; mode `one` = a single write call,
-/// `all` = write_all.  answer: `<ret> sink=<text as hex>`
+/// `all` = write_all.  answer: `ok(<n>)|ok(all)|err(<kind>:<inner>) sink=<text as hex>`
 fn hexwrite(args: &[&str]) -> String {
     let data = unhex(args[0]);
     let accept = nums(args[1]);
@@ -108,11 +122,11 @@ fn hexwrite(args: &[&str]) -> String {
         match args[2] {
             "one" => match hw.write(&data) {
                 Ok(n) => format!("ok({})", n),
-                Err(e) => format!("err({:?})", e.kind()),
+                Err(e) => show_err(&e),
             },
             _ => match hw.write_all(&data) {
                 Ok(()) => "ok(all)".to_string(),
-                Err(e) => format!("err({:?})", e.kind()),
+                Err(e) => show_err(&e),
             },
         }
     };
